@@ -114,6 +114,12 @@ func TestC14(t *testing.T) {
 				P + " " + bn.BLen + "(t1(), t2());\n" + P + " t3();\n",
 				P + " " + bn.BPush + "(t1());\n" + P + " t2();\n",
 				P + " " + bn.BAbs + "(t1(), t2(), t3());\n",
+				// the assigned value before the store, also when the store cannot be made: the name is declared nowhere
+				"zz = t1();\n" + P + " t2();\n",
+				P + " [t1(), zz = t2(), t3()];\n",
+				"x = zz = t1() + t2();\n" + P + " t3();\n",
+				"zz = (x = t1()) " + bn.KwOr + " t2();\n" + P + " x;\n",
+				"{ " + bn.KwVar + " inner = 1; }\ninner = t1();\n" + P + " t2();\n",
 				"(t1()).k = t2();\n" + P + " t3();\n",
 				"nil.k = t1();\n" + P + " t2();\n",
 				"(t1())[t2()] = t3();\n",
